@@ -369,6 +369,37 @@ Definition cp_sweep (X y : tensor F) (so : list nat) (R : nat) (fs : list (tenso
   fold_left (fun cur i => set_nth i (cp_block X y so R cur i) cur) (seq 0 (length fs)) fs.
 End CpBlocks.
 
+(* ---------------------------------------------------------------- the ridge block updates of TuckerRegressor.fit, concretely.
+   X : n :: sx, y : [n], G : core of shape gs, fs_k : (d_k x g_k).
+     mode i:  phi[s, (j, q)] = sum_J' X[s, J' with j at i] * sum_K' G[K' with q at i] * prod_{k <> i} fs_k[J'_k, K'_k]
+              W_i = vec_to_tensor(solve(phi'phi + reg I, phi'y), (d_i, g_i))
+     core:    phi[s, K] = sum_J X[s, J] * prod_k fs_k[J_k, K_k];   G = vec_to_tensor(solve(phi'phi + reg I, phi'y), gs) *)
+Section TkBlocks.
+Variable solve : nat -> tensor F -> tensor F -> tensor F.
+Variable reg : F.
+
+Definition tk_phi_mode (X G : tensor F) (fs : list (tensor F)) (i : nat) : tensor F :=
+  let sx := sshape X in let qi := nth i (shape G) 0 in
+  tabulate [nsamp X; nth i sx 0 * qi] (fun idx =>
+    let j := nth 1 idx 0 / qi in let q := nth 1 idx 0 mod qi in
+    fsum_idx (remove_nth i sx) (fun J' => fmul Op (tget X (nth 0 idx 0 :: insert_at i j J'))
+      (fsum_idx (remove_nth i (shape G))
+                (fun K' => fmul Op (tget G (insert_at i q K')) (tk_coeff (remove_nth i fs) J' K'))))).
+Definition tk_phi_core (X : tensor F) (fs : list (tensor F)) (gs : list nat) : tensor F :=
+  tabulate [nsamp X; prod gs] (fun idx =>
+    fsum_idx (sshape X) (fun J => fmul Op (tget X (nth 0 idx 0 :: J)) (tk_coeff fs J (unravel gs (nth 1 idx 0))))).
+Definition tk_block (X y G : tensor F) (fs : list (tensor F)) (i : nat) : tensor F :=
+  let phi := tk_phi_mode X G fs i in
+  reshape [nth i (sshape X) 0; nth i (shape G) 0] (solve i (ridge_lhs reg phi) (ridge_rhs phi y)).
+Definition tk_core_update (X y G : tensor F) (fs : list (tensor F)) : tensor F :=
+  let phi := tk_phi_core X fs (shape G) in
+  reshape (shape G) (solve (length fs) (ridge_lhs reg phi) (ridge_rhs phi y)).
+(* one pass: the factors in turn (each sees the ones already updated), then the core *)
+Definition tk_concrete_sweep (X y : tensor F) (b : tensor F * list (tensor F)) : tensor F * list (tensor F) :=
+  let fs' := fold_left (fun cur i => set_nth i (tk_block X y (fst b) cur i) cur) (seq 0 (length (snd b))) (snd b) in
+  (tk_core_update X y (fst b) fs', fs').
+End TkBlocks.
+
 (* the two instances of `rebuild`: blocks = (weights, factors) resp. (core, factors) *)
 Definition cp_rebuild (b : tensor F * list (tensor F)) : tensor F := cp_to_tensor (fst b) (snd b).
 Definition tucker_rebuild (b : tensor F * list (tensor F)) : tensor F := tucker_to_tensor (fst b) (snd b).
